@@ -114,19 +114,19 @@ theorem scene_culled : ∃ t' st, render cB NVI.sh (viewportMat 0 4 0 4) tris vs
   subst ht0
   exact Or.inl (by decide +kernel)
 
-/-- Without culling a pixel off the visible part is untouched: pixel (3,3), centre NDC (3/4, 3/4), is outside `T`
-(u + v = 1 is the line x + y = 3/2 in NDC). -/
+/-- Without culling a pixel off the visible part is untouched: pixel (0,0), centre NDC (−3/4, −3/4), is outside `T`
+(whose left edge is x = −1/2 in NDC: the pre-image would have u = −1/10 < 0). -/
 theorem scene_outside : ∃ t' st, render cN NVI.sh (viewportMat 0 4 0 4) tris vs NVI.t0 = .ok (t', st) ∧
-    WFD t' 4 4 ∧ pix t' 3 3 = pix NVI.t0 3 3 := by
+    WFD t' 4 4 ∧ pix t' 0 0 = pix NVI.t0 0 0 := by
   obtain ⟨t', st, hr, hwf', h⟩ := render_pixel_untouched_visible _ affineInv cN NVI.sh 0 4 0 4 4 4 1
     (by omega) (by omega) (by omega) (by omega) tris vs (by decide) hverts NVI.t0 NVI.hwf
-  refine ⟨t', st, hr, hwf', h 3 3 ?_⟩
+  refine ⟨t', st, hr, hwf', h 0 0 ?_⟩
   intro t0 ht0
   rw [inp, List.mem_singleton] at ht0
   subst ht0
   refine Or.inr fun q' hq' hc => ?_
   obtain ⟨⟨h1, h2, h3⟩, -⟩ := hq'
-  have e : centre 3 3 = ((7 / 2 : Rat), (7 / 2 : Rat)) := by decide +kernel
+  have e : centre 0 0 = ((1 / 2 : Rat), (1 / 2 : Rat)) := by decide +kernel
   rw [e] at hc
   simp only [projV, proj, baryPos, comb4, T, mkVert, Prod.mk.injEq] at hc
   obtain ⟨c1, c2⟩ := hc
